@@ -74,6 +74,7 @@ def cases(tier):
     out.append({"k": "entity-roundtrip"})
     for auto in (True, False):
         out.append({"k": "sizes-and-frames", "auto": auto})
+        out.append({"k": "toggles", "start": auto})
     from checks import C12
     for i in range(len(C12.FAULTS)):
         out.append({"k": "fault-then-set", "i": i, "seed": "mini"})
@@ -411,6 +412,46 @@ def run_sizes_and_frames(case, r):
         s.close()
 
 
+def run_toggles(case, r):
+    """the automatic-timestamp switch toggled back and forth eight times; after every toggle one listed attribute of every
+    entity kind is changed: stamped exactly when the switch is on"""
+    s = O.Session(build=explorer.SEEDS["rich"], auto_ts=case["start"])
+    try:
+        f = s.f
+        b = f.blocks["blk"]
+        auto = case["start"]
+        targets = [("Block", lambda: b, "definition"), ("DataArray", lambda: b.data_arrays["sig"], "label"), ("Tag", lambda: b.tags["tag"], "definition"),
+                   ("MultiTag", lambda: b.multi_tags["mtag"], "definition"), ("Group", lambda: b.groups["grp"], "definition"),
+                   ("Source", lambda: b.sources["src"], "definition"), ("Section", lambda: f.sections["sec"], "repository"),
+                   ("Property", lambda: f.sections["sec"].props["pint"], "definition"), ("DataFrame", lambda: b.data_frames["frame"], "definition")]
+        for k in range(8):
+            auto = not auto
+            f.auto_update_timestamps = auto
+            if k == 4:
+                s.auto_ts = auto
+                s.reopen("rw")
+                f = s.f
+                b = f.blocks["blk"]
+            for kind, get, attr in targets:
+                env.CLOCK.advance(3)
+                now = env.CLOCK()
+                e = get()
+                u0, c0 = e.updated_at, e.created_at
+                setattr(e, attr, "toggle-%d" % k)
+                r.evals += 1
+                r.nontrivial += 1
+                r.transitions += 1
+                e2 = get()
+                if e2.created_at != c0 or (auto and e2.updated_at != now) or (not auto and e2.updated_at != u0):
+                    r.viol("C19|toggles|%s|%s|toggle-%d|wrong-stamp" % (kind, "auto-on" if auto else "auto-off", k + 1),
+                           "after %d toggles (switch %s) setting %s of a %s: updated_at %r -> %r (clock %r), created_at %r -> %r" % (
+                               k + 1, "on" if auto else "off", attr, kind, u0, e2.updated_at, now, c0, e2.created_at), {})
+                    return
+        r.traces += 1
+    finally:
+        s.close()
+
+
 def run_fault_then_set(case, r):
     """a refused call (fault catalogue of C12) must not disturb the timestamp machinery: afterwards every listed
     attribute change still stamps its own entity with the current time and nothing else"""
@@ -473,6 +514,9 @@ def run_fault_then_set(case, r):
 
 def run_case(case):
     r = R()
+    if case["k"] == "toggles":
+        run_toggles(case, r)
+        return r
     if case["k"] == "sizes-and-frames":
         run_sizes_and_frames(case, r)
         return r
